@@ -58,7 +58,8 @@ Inductive expr :=
 | ELCall (f : nat) (args : list expr)      (* handler number f of this script *)
 | EList (items : list expr)
 | EPList (items : list expr)               (* key, value, key, value, ... *)
-| EObj (f : ofam) (pid : nat) (a : expr).  (* the <property number pid> of <sound / sprite / cast> a *)
+| EObj (f : ofam) (pid : nat) (a : expr)   (* the <property number pid> of <sound / sprite / cast> a *)
+| EMenu (pid : nat) (item menu : expr).    (* the <property number pid> of menuItem item of menu menu *)
 
 Definition b (z : Z) : byte := byte_of_Z z.
 
@@ -95,6 +96,7 @@ Fixpoint compile_e (e : expr) : bytes :=
   | EList items => flat_map compile_e items ++ compile_arglist (List.length items) true ++ [b 30]
   | EPList items => flat_map compile_e items ++ compile_arglist (List.length items) true ++ [b 31]
   | EObj f pid x => compile_e x ++ compile_int (Z.of_nat pid) ++ [b 92; b (fcode f)]
+  | EMenu pid it mn => compile_e it ++ compile_e mn ++ compile_int (Z.of_nat pid) ++ [b 92; b 3]
   end.
 
 (* number of instructions *)
@@ -103,6 +105,7 @@ Fixpoint ninstr (e : expr) : nat :=
   | EBin _ x y => ninstr x + ninstr y + 1
   | ENeg x | ENot x => ninstr x + 1
   | EObj _ _ x => ninstr x + 2
+  | EMenu _ it mn => ninstr it + (ninstr mn + 2)
   | ECall _ args | ELCall _ args => fold_right (fun x a => ninstr x + a) 0 args + 2
   | EList items | EPList items => fold_right (fun x a => ninstr x + a) 0 items + 2
   | _ => 1
@@ -156,6 +159,11 @@ Fixpoint reify_e (en : env) (pc : Z) (e : expr) {struct e} : node :=
     let po := pc + zlen (compile_e x) + zlen (compile_int (Z.of_nat pid)) in
     let o := reify_e en pc x in
     Accessor po (ObjRef (fclass f) (name_of o) po o) (nth pid (ftable f) "")
+  | EMenu pid it mn =>
+    let pm := pc + zlen (compile_e it) in
+    let po := pm + zlen (compile_e mn) + zlen (compile_int (Z.of_nat pid)) in
+    let i := reify_e en pc it in let mnode := reify_e en pm mn in
+    Accessor po (MenuItemAcc po (ObjRef KMenu (name_of mnode) po mnode) (ObjRef KMenuItem (name_of i) po i)) (nth pid MENUITEM_PROPERTIES "")
   end.
 
 Fixpoint reify_args (en : env) (pc : Z) (l : list expr) : list node * Z :=
@@ -176,6 +184,7 @@ Fixpoint globals_e (en : env) (pc : Z) (e : expr) {struct e} : list node :=
   | EGlob n => [Leaf KGlobal (nm en n) pc true]
   | EBin _ x y => globals_e en pc x ++ globals_e en (pc + zlen (compile_e x)) y
   | ENeg x | ENot x | EObj _ _ x => globals_e en pc x
+  | EMenu _ it mn => globals_e en pc it ++ globals_e en (pc + zlen (compile_e it)) mn
   | ECall _ args | ELCall _ args | EList args | EPList args => go_args pc args
   | _ => []
   end.
@@ -206,6 +215,7 @@ Fixpoint wf_e (en : env) (e : expr) {struct e} : Prop :=
   | EPList items => Z.of_nat (List.length items) < 65536 /\ Nat.even (List.length items) = true /\
                     (fix all (l : list expr) : Prop := match l with [] => True | x :: r => wf_e en x /\ all r end) items
   | EObj f pid x => (pid < List.length (ftable f))%nat /\ wf_e en x
+  | EMenu pid it mn => (pid < List.length MENUITEM_PROPERTIES)%nat /\ wf_e en it /\ wf_e en mn
   end.
 Fixpoint wf_args (en : env) (l : list expr) : Prop := match l with [] => True | x :: r => wf_e en x /\ wf_args en r end.
 
